@@ -641,6 +641,11 @@ class Interp:
             return self._pure_simple(n.value) and self._pure_simple(n.slice)
         if isinstance(n, ast.UnaryOp) and isinstance(n.op, ast.Not):
             return self._pure_simple(n.operand)
+        if isinstance(n, ast.Compare) and all(isinstance(o, (ast.Eq, ast.NotEq, ast.In, ast.NotIn, ast.Lt, ast.LtE, ast.Gt, ast.GtE, ast.Is, ast.IsNot))
+                                              for o in n.ops):
+            return self._pure_simple(n.left) and all(self._pure_simple(x) for x in n.comparators)
+        if isinstance(n, ast.BoolOp):
+            return all(self._pure_simple(x) for x in n.values)
         return False
 
     def ev_BoolOp(self, e, env):
@@ -1262,6 +1267,8 @@ class Interp:
                 return item.sym_key_in(self, container)
             return self.concrete_key(item) in container
         if isinstance(container, (set, frozenset)):
+            if hasattr(item, "py_eq"):
+                return mkbool(bor(*[bterm(item.py_eq(self, x)) for x in container]))
             return self.concrete_key(item) in container
         if isinstance(container, (list, tuple)):
             return mkbool(bor(*[bterm(self.equal(x, item)) for x in container]))
